@@ -201,52 +201,63 @@ func (e *Engine) factsAt(c *fnCtx, at ssa.Instruction, goal Lin, hyp []Ineq) []I
 		}
 	}
 	var used []Ineq
-	changed := true
 	taken := make([]bool, len(facts))
-	for changed {
-		changed = false
-		for i, f := range facts {
-			if taken[i] {
-				continue
-			}
-			touch := false
-			for a := range f.L.C {
-				if rel[a] {
-					touch = true
+	seenDef := map[Atom]bool{}
+	// alternate between selecting the guard/success facts connected to the relevant atoms and
+	// adding the definition facts of those atoms (which can connect further atoms: cap >= len
+	// brings the guards on len into play for a goal about cap)
+	for outer := 0; outer < 4; outer++ {
+		progress := false
+		changed := true
+		for changed {
+			changed = false
+			for i, f := range facts {
+				if taken[i] {
+					continue
 				}
-			}
-			if touch || len(f.L.C) == 0 {
-				taken[i] = true
-				used = append(used, f)
+				touch := false
 				for a := range f.L.C {
-					if !rel[a] {
-						rel[a] = true
-						changed = true
+					if rel[a] {
+						touch = true
+					}
+				}
+				if touch || len(f.L.C) == 0 {
+					taken[i] = true
+					progress = true
+					used = append(used, f)
+					for a := range f.L.C {
+						if !rel[a] {
+							rel[a] = true
+							changed = true
+						}
 					}
 				}
 			}
 		}
-	}
-	// definition facts (may introduce further atoms; two rounds)
-	seenDef := map[Atom]bool{}
-	for round := 0; round < 3; round++ {
-		var atoms []Atom
-		for a := range rel {
-			if !seenDef[a] {
-				atoms = append(atoms, a)
-			}
-		}
-		if len(atoms) == 0 {
-			break
-		}
-		for _, a := range atoms {
-			seenDef[a] = true
-			for _, d := range c.defFacts(a) {
-				used = append(used, d)
-				for b := range d.L.C {
-					rel[b] = true
+		for round := 0; round < 3; round++ {
+			var atoms []Atom
+			for a := range rel {
+				if !seenDef[a] {
+					atoms = append(atoms, a)
 				}
 			}
+			if len(atoms) == 0 {
+				break
+			}
+			sort.Slice(atoms, func(i, j int) bool { return atoms[i].String() < atoms[j].String() })
+			for _, a := range atoms {
+				seenDef[a] = true
+				progress = true
+				for _, d := range c.defFacts(a) {
+					used = append(used, d)
+					for b := range d.L.C {
+						rel[b] = true
+					}
+				}
+			}
+		}
+		if !progress {
+			break
 		}
 	}
 	// x != k together with x >= k (or x <= k) tightens to x >= k+1 (x <= k-1)
@@ -465,7 +476,13 @@ func (e *Engine) Enumerate(fn *ssa.Function) []*Obligation {
 			case *ssa.BinOp:
 				if (x.Op == token.QUO || x.Op == token.REM) && isInteger(x.Type()) {
 					if _, isK := constInt(x.Y); !isK {
-						d := c.lin(x.Y)
+						dv := x.Y
+						// uint64(n) of a signed n is >= 1 when n >= 1: state the goal on n, whose
+						// guards are visible (the conversion itself is opaque to the linear forms)
+						if cv, ok := dv.(*ssa.Convert); ok && isInteger(cv.X.Type()) && !isUnsigned(cv.X.Type()) && isUnsigned(cv.Type()) && sizeOf(cv.Type()) >= sizeOf(cv.X.Type()) {
+							dv = cv.X
+						}
+						d := c.lin(dv)
 						add(in, "div", "divisor "+d.String(), Ineq{d.Sub(Const(1)), "divisor>=1"})
 					}
 				}
@@ -484,6 +501,22 @@ func (e *Engine) Enumerate(fn *ssa.Function) []*Obligation {
 						goals = append(goals, Ineq{Const(e.MaxMake).Sub(n), fmt.Sprintf("len<=%d", e.MaxMake)})
 					}
 					add(in, "make", "make len "+n.String(), goals...)
+				}
+				if x.Cap != x.Len {
+					if _, isK := constInt(x.Cap); !isK {
+						cp := c.lin(x.Cap)
+						goals := []Ineq{{cp.Sub(c.lin(x.Len)), "cap>=len"}}
+						prop := len(cp.C) > 0 && cp.K <= e.MaxMake
+						for a, k := range cp.C {
+							if !(a.Kind == 'l' || a.Kind == 'c') || k <= 0 || k > 16 {
+								prop = false
+							}
+						}
+						if !prop {
+							goals = append(goals, Ineq{Const(e.MaxMake).Sub(cp), fmt.Sprintf("cap<=%d", e.MaxMake)})
+						}
+						add(in, "make", "make cap "+cp.String(), goals...)
+					}
 				}
 			case *ssa.TypeAssert:
 				if !x.CommaOk {
@@ -762,7 +795,11 @@ func (e *Engine) Run(roots map[*ssa.Function]bool) {
 		}
 	}
 	// pass 1: infer requirements bottom-up (a few rounds so that success facts of calls exist)
-	for round := 0; round < 3; round++ {
+	// Requirements climb one call level per round: iterate until the set of requirements is
+	// stable (a chain is at most Depth long), so that a requirement lifted over several levels
+	// is present at the level where it is finally decided.
+	prevSig := ""
+	for round := 0; round < e.Depth+3; round++ {
 		e.ctx = map[*ssa.Function]*fnCtx{}
 		newReqs := map[*ssa.Function][]Req{}
 		for _, fn := range fns {
@@ -821,6 +858,18 @@ func (e *Engine) Run(roots map[*ssa.Function]bool) {
 			newReqs[fn] = out
 		}
 		e.reqs = newReqs
+		var sig []string
+		for fn, rs := range newReqs {
+			for _, r := range rs {
+				sig = append(sig, model.FnName(fn)+"|"+r.G.L.String()+"|"+r.Origin.Expr+"|"+model.FnName(r.Origin.Fn))
+			}
+		}
+		sort.Strings(sig)
+		cur := strings.Join(sig, "\n")
+		if cur == prevSig {
+			break
+		}
+		prevSig = cur
 	}
 	// pass 2: final verdicts
 	e.ctx = map[*ssa.Function]*fnCtx{}
